@@ -25,6 +25,9 @@ def has_ptr(v):
     return False
 
 
+VACUOUS = VPy('<vacuous>')
+
+
 class ExprMixin:
     # ---------------------------------------------------------------- names
     def lookup(self, name, node=None):
@@ -248,7 +251,19 @@ class ExprMixin:
             if isinstance(v, VUnion) and v.resolved is None:
                 raise EngineLimit('union')
             v = self.res(v)
-        except (EngineLimit, PyRaise, PathEnd):
+        except PathEnd:
+            # the assumption contradicts the path condition: this operand is never evaluated
+            del st.pc[mark:]
+            st.heap.clear()
+            st.heap.update(heap0)
+            del st.obls[nob:]
+            del st.safe[nsafe:]
+            return VACUOUS
+        except (EngineLimit, PyRaise) as exc_:
+            import os as _os
+            if _os.environ.get('PYVC_DEBUG'):
+                print('SPECULATE FAILED', ast.unparse(node)[:100], '::', type(exc_).__name__, str(exc_)[:200],
+                      getattr(exc_, 'site', ''))
             del st.pc[mark:]
             st.heap.clear()
             st.heap.update(heap0)
@@ -271,8 +286,12 @@ class ExprMixin:
         if z3.is_false(ts):
             return self.ev(node.orelse)
         a = self.speculate(t, node.body)
+        if a is VACUOUS:
+            return self.ev(node.orelse)
         if a is not None:
             b = self.speculate(z3.Not(t), node.orelse)
+            if b is VACUOUS:
+                return a
             if b is not None:
                 for cls_, mk in ((VBool, VBool), (VInt, VInt), (VStr, VStr)):
                     if type(a) is cls_ and type(b) is cls_:
@@ -293,12 +312,18 @@ class ExprMixin:
             if acc is not None:
                 guard = acc if is_and else z3.Not(acc)
                 sv = self.speculate(guard, e)
+                if sv is VACUOUS:
+                    if last:
+                        return VBool(acc)
+                    continue
                 if sv is not None and isinstance(sv, VBool):
                     acc = z3.And(acc, sv.t) if is_and else z3.Or(acc, sv.t)
                     if last:
                         return VBool(acc)
                     continue
                 # fall back to forking on what was accumulated
+                if getattr(self, 'no_fork', 0):
+                    self.limit(f'operand `{ast.unparse(e)[:80]}` of a boolean expression needs a case split or may raise', e)
                 t = self.branch(acc)
                 acc = None
                 if is_and and not t:
@@ -327,10 +352,10 @@ class ExprMixin:
         return v
 
     def ev_UnaryOp(self, node):
-        v = self.res(self.ev(node.operand))
         if isinstance(node.op, ast.Not):
-            t = self.truth(v)
+            t = self.truth(self.ev(node.operand))      # union-aware: no case split
             return VBool(not t) if isinstance(t, bool) else VBool(z3.Not(t))
+        v = self.res(self.ev(node.operand))
         if isinstance(node.op, ast.USub):
             if isinstance(v, (VInt, VBool)):
                 return VInt(-self.flat(v, 'int'))
@@ -471,6 +496,13 @@ class ExprMixin:
                 return False
             if isinstance(c, MapCell):
                 return z3.Select(c.dom, self.map_key(c, item, node))
+            if isinstance(c, SetCell):
+                if c.arr is None:
+                    return False
+                k, t = models.set_key(self, c, item, node)
+                if k != c.kind:
+                    return False
+                return z3.Select(c.arr, t)
             if isinstance(c, ObjCell):
                 return models.obj_contains(self, cont, c, item, node)
         if isinstance(cont, VOpaque):
@@ -591,6 +623,8 @@ class ExprMixin:
                 return VBuiltin('list.' + attr, base)
             if isinstance(c, (DictCell, MapCell)):
                 return VBuiltin('dict.' + attr, base)
+            if isinstance(c, SetCell):
+                return VBuiltin('set.' + attr, base)
         if isinstance(base, VStr):
             return VBuiltin('str.' + attr, base)
         if isinstance(base, VModule):
